@@ -220,8 +220,14 @@ def main(ctx: Ctx):
                 w = RemoteWorker(TG.t_ret, host=sess.addr(), main_path='')
                 time.sleep(0.6)          # the backend has finished; its result is in flight
                 st, r1 = watchdog(lambda: (w.wait(0.3) if call == 'wait' else w.terminate(0.3, force=False)), 10)   # force=True would SIGTERM this very process
+                # the same call repeated while the frontend is still busy (the first one may have learnt that the remote
+                # process is gone): whichever call first reports death, the outcome must be definite from then on
+                st1b, r1b = watchdog(lambda: (w.wait(0.3) if call == 'wait' else w.terminate(0.3, force=False)), 10)
                 st2, alive = watchdog(w.is_alive, 10)
-                seen_dead = (r1 is True) or (alive is False)
+                seen_dead = (r1 is True) or (r1b is True) or (alive is False)
+                if (r1 is True or r1b is True) and alive is True:
+                    ctx.fail('alive-after-reported-dead:remote:frontend-delay', f'RemoteWorker whose frontend thread is still receiving the result: {call}(0.3) twice -> {r1}, {r1b}, then is_alive() -> True',
+                             {'prog': 'remoteRun', 'scenario': 'frontend-delay', 'call': call})
                 before = inject.observe(w, 1) if seen_dead else None
                 gate.set()
                 w._child.join(5)
@@ -230,7 +236,7 @@ def main(ctx: Ctx):
                 ctx.case(('frontend-delay', call), sample={'case': 'frontend thread delayed', 'call': call, 'first': r1, 'is_alive': alive, 'after': after[0]})
                 f = shape_fail((before or []) + after)
                 if f:
-                    ctx.fail(f'{f[0]}:remote:frontend-delay', f'RemoteWorker whose frontend thread is still receiving the result: after {call}(0.3) -> {r1}, is_alive() -> {alive}: {f[1]}',
+                    ctx.fail(f'{f[0]}:remote:frontend-delay', f'RemoteWorker whose frontend thread is still receiving the result: after {call}(0.3) twice -> {r1}, {r1b}, is_alive() -> {alive}: {f[1]}',
                              {'prog': 'remoteRun', 'scenario': 'frontend-delay', 'call': call, 'before': before, 'after': after})
             finally:
                 R.recv_msg = orig
